@@ -273,7 +273,7 @@ def tag_case(obligations, case):
     if not lab:
         return
     for o in obligations:
-        o["instance"] = "%s [grid sizes with %s]" % (o["instance"], lab)
+        o["instance"] = "%s [case: %s]" % (o["instance"], lab)
         if "key" in o:
             o["key"] = "%s|case:%s" % (o["key"], lab)
 
